@@ -51,7 +51,7 @@ def mc_module(fam):
 
 def cfg_text(algo, budget, steps, mode, view=True):
     t = ('SPECIFICATION Spec\nCONSTANTS\n Peers <- MCPeers\n Cat <- MCCat\n Attr <- MCAttr\n Algo = "%s"\n Sensors <- MCSensors\n Budget = %d\n Enabled <- MCEnabled\n VecDests <- MCVecDests\n VecLevels <- MCVecLevels\n'
-         ' MaxSteps = %d\n EmitMode = "%s"\nINVARIANTS NoSilentLoss CopiesInRange Conservation DistinctIds Emit\n' % (algo, budget, steps, mode))
+         ' MaxSteps = %d\n EmitMode = "%s"\nINVARIANTS NoSilentLoss CopiesInRange Conservation DistinctIds SensorsDirectOnly Emit\n' % (algo, budget, steps, mode))
     if view:
         t += "VIEW SView\n"
     return t
